@@ -392,6 +392,9 @@ func (g *G) Value(typ reflect.Type) reflect.Value {
 			return v
 		}
 		n := g.sliceLen()
+		if typ == T(Tree{}) && g.depth > 5 {
+			n = 0
+		}
 		if n == 0 {
 			if rapid.Bool().Draw(g.T, g.name("nilslice")) {
 				return v
@@ -407,7 +410,7 @@ func (g *G) Value(typ reflect.Type) reflect.Value {
 		return s
 	case reflect.Map:
 		n := 0
-		if g.budget > 0 {
+		if g.budget > 0 && !(typ == T(JMap{}) && g.depth > 5) {
 			n = rapid.IntRange(0, g.Cfg.Small).Draw(g.T, g.name("maplen"))
 			if n == g.Cfg.Small && rapid.IntRange(0, 7).Draw(g.T, g.name("bigmap")) == 0 {
 				n = rapid.IntRange(5, 40).Draw(g.T, g.name("maplen"))
@@ -474,7 +477,12 @@ func (g *G) dynamic1() reflect.Value {
 	// the same non-empty list or map once more (travels as a back-reference)
 	if g.Cfg.Share && len(g.dynConts) > 0 && rapid.IntRange(0, 11).Draw(g.T, g.name("dynAgain")) == 0 {
 		g.lbl("shared-container")
-		return g.dynConts[rapid.IntRange(0, len(g.dynConts)-1).Draw(g.T, g.name("dynWhich"))]
+		c := g.dynConts[rapid.IntRange(0, len(g.dynConts)-1).Draw(g.T, g.name("dynWhich"))]
+		if c.Kind() == reflect.Slice && c.Len() > 1 && rapid.Bool().Draw(g.T, g.name("dynPrefix")) {
+			// a shorter slice of the same array: another list at the same address
+			return c.Slice(0, rapid.IntRange(1, c.Len()-1).Draw(g.T, g.name("dynPrefixLen")))
+		}
+		return c
 	}
 	max := 13
 	if g.depth > 4 || g.budget <= 0 {
